@@ -149,6 +149,17 @@ def d2(p, q):
     return sum((a - b) ** 2 for a, b in zip(p, q))
 
 
+def PA(c):
+    """query / first point set the measured call sees (after the call's history, if any)"""
+    return c['final']['A'] if c.get('final') else c['A']['pts']
+
+
+def PB(c):
+    if c.get('B') is None:
+        return PA(c)
+    return c['final']['B'] if c.get('final') else c['B']['pts']
+
+
 def bound_choices(rng, A, B):
     """candidate bounds: (float or None, squared bound for the model)"""
     ds = sorted({d2(a, b) for a in A for b in B})
@@ -180,6 +191,64 @@ def bound_sq(b):
     return f.numerator // f.denominator
 
 
+def add_history(rng, c):
+    """search, move the target (and sometimes the queries) IN PLACE on the same objects, search
+    again: the measured call must see the moved coordinates"""
+    A0 = c['A']['pts']
+    B0 = None if c.get('B') is None else c['B']['pts']
+
+    def move(pts):
+        kind = rng.choice(['translate', 'translate', 'assign'])
+        if kind == 'translate':
+            v = [rng.choice([-7, -1, 1, 3, 40, 1000]) * rng.choice([0, 1, 1]) for _ in range(3)]
+            if v == [0, 0, 0]:
+                v = [5, 0, 0]
+            return {'op': 'translate', 'v': v}, [[p[i] + v[i] for i in range(3)] for p in pts]
+        sh = [rng.randint(-3, 3) for _ in range(3)]
+        new = [[-p[1] + sh[0], p[0] + sh[1], (p[2] if rng.random() < 0.5 else -p[2]) + sh[2]] for p in pts]
+        # a non-rigid part: one point moves on its own
+        j = rng.randrange(len(new))
+        new[j] = [new[j][0] + rng.choice([0, 2]), new[j][1], new[j][2] - rng.choice([0, 1])]
+        return {'op': 'assign', 'pts': new}, new
+
+    hist = [{'op': 'search'}]
+    fin = {'A': [list(p) for p in A0], 'B': None if B0 is None else [list(p) for p in B0]}
+    tgt = 'A' if B0 is None else 'B'
+    op, new = move(fin[tgt])
+    op['target'] = tgt
+    fin[tgt] = new
+    hist.append(op)
+    if rng.random() < 0.4:
+        hist.append({'op': 'search'})
+        other = 'A' if (B0 is not None and rng.random() < 0.5) else tgt
+        op, new = move(fin[other])
+        op['target'] = other
+        fin[other] = new
+        hist.append(op)
+    c['history'] = hist
+    c['final'] = fin if B0 is not None else {'A': fin['A'], 'B': None}
+    return c
+
+
+def final_ok(c, r):
+    if not c.get('history'):
+        return True
+    f = r.get('final')
+    if not f:
+        return False
+
+    def ints(rows):
+        out = []
+        for row in rows:
+            if not all(isinstance(x, list) and x[1] == 1 for x in row):
+                return None
+            out.append([x[0] for x in row])
+        return out
+    if ints(f['A']) != c['final']['A']:
+        return False
+    return c.get('B') is None or ints(f['B']) == c['final']['B']
+
+
 def gen_knn_calls(ctx, n_calls, nmax):
     rng = ctx.rng
     calls = []
@@ -205,10 +274,14 @@ def gen_knn_calls(ctx, n_calls, nmax):
         ks = [1, 1, 2, 3, max(1, nB - 1), nB, nB + 1, nB + 3]
         k = rng.choice(ks)
         b = bound_choices(rng, A if A is not None else B, B)
-        calls.append({'id': len(calls), 'fn': 'knn', 'family': fam, 'qmode': mode,
-                      'A': {'pts': A if A is not None else B}, 'B': None if A is None else {'pts': B},
-                      'k': k, 'bound': None if b is None else float(b).hex(), 'bound_f': b,
-                      'bound2': bound_sq(b)})
+        c = {'id': len(calls), 'fn': 'knn', 'family': fam, 'qmode': mode,
+             'A': {'pts': A if A is not None else B}, 'B': None if A is None else {'pts': B},
+             'k': k, 'bound': None if b is None else float(b).hex(), 'bound_f': b,
+             'bound2': bound_sq(b)}
+        if i % 5 == 4:
+            add_history(rng, c)
+            c['qmode'] = mode + '+moved-in-place'
+        calls.append(c)
     return calls
 
 
@@ -232,6 +305,17 @@ def gen_hd_calls(ctx, n_calls, nmax, start_id):
             calls.append({'id': start_id + len(calls), 'fn': 'hd', 'family': fa + '/' + fb,
                           'A': {'pts': A}, 'B': {'pts': B}, 'directed': True})
             continue
+        if i % 4 == 3:
+            # one set contained in the other: one direction is exactly 0, symmetric mode
+            B = FAMILIES[fb](rng, _ri(rng, 2, nmax))
+            keep = max(1, len(B) - rng.choice([1, 1, 2, 3]))
+            A = [list(p) for p in rng.sample(B, keep)]
+            if rng.random() < 0.5:
+                A, B = B, A
+            c = {'id': start_id + len(calls), 'fn': 'hd', 'family': 'subset/' + fb,
+                 'A': {'pts': A}, 'B': {'pts': B}, 'directed': False}
+            calls.append(c)
+            continue
         if r < 0.25:
             B = [[x + rng.choice([-1, 0, 0, 1]) for x in p] for p in A]
             rng.shuffle(B)
@@ -244,8 +328,12 @@ def gen_hd_calls(ctx, n_calls, nmax, start_id):
             B = FAMILIES[fb](rng, _ri(rng, 1, nmax))
         if rng.random() < 0.5:
             A, B, fa, fb = B, A, fb, fa
-        calls.append({'id': start_id + len(calls), 'fn': 'hd', 'family': fa + '/' + fb,
-                      'A': {'pts': A}, 'B': {'pts': B}, 'directed': rng.random() < 0.6})
+        c = {'id': start_id + len(calls), 'fn': 'hd', 'family': fa + '/' + fb,
+             'A': {'pts': A}, 'B': {'pts': B}, 'directed': rng.random() < 0.6}
+        if i % 4 == 2:
+            add_history(rng, c)
+            c['family'] += '+moved-in-place'
+        calls.append(c)
     return calls
 
 
@@ -359,19 +447,31 @@ def gen_hop_calls(ctx, n_calls, start_id):
         eids = sparse_ids(rng, len(conn_idx), rng.choice(['seq', 'sparse_sorted']))
         conn_ids = [[nids[v] for v in e] for e in conn_idx]
         r = rng.choice(radii)
+        scale_exp = 0
+        if i % 4 == 3:
+            # small length scale: coordinates are integers times 2^-14 (6.1e-5), where the
+            # kernel's eps = 1e-8 is no longer negligible against r^2
+            scale_exp = rng.choice([-14, -14, -13, -16])
+            m = rng.choice([0, 1, 2, 3, 4, 5, 8])
+            r = (2.0 ** scale_exp) * rng.choice([math.sqrt(m + 0.5), math.sqrt(m + 0.25), float(m),
+                                                 m + 0.5, math.sqrt(m + 0.75)])
+        A = {'pts': pts2, 'ids': nids, 'elems': {et: [eids, conn_ids]}}
+        if scale_exp:
+            A['scale_exp'] = scale_exp
         calls.append({'id': start_id + len(calls), 'fn': 'hop', 'family': et, 'idmode': idmode,
-                      'A': {'pts': pts2, 'ids': nids, 'elems': {et: [eids, conn_ids]}},
+                      'A': A, 'scale_exp': scale_exp,
                       'conn_idx': conn_idx, 'r': float(r).hex(), 'r_f': r,
                       'mode': rng.choice(['nodal', 'elemental'])})
     return calls
 
 
-def radius_sq(r):
-    """floor((r + 1e-8)^2) as the kernel computes it; None when the float value is too close to
-    an integer for the floor to be robust against the last-bit rounding of `**`"""
+def radius_sq(r, scale_exp=0):
+    """largest integer D with D * s^2 <= (r + 1e-8)^2 as the kernel computes it (s = 2^scale_exp
+    is the length unit of the integer coordinates); None when the float value is too close to
+    a multiple of s^2 for the floor to be robust against the last-bit rounding of `**`"""
     md = r + 1e-8
-    md2 = md ** 2
-    ex = Fraction(md) ** 2
+    md2 = (md ** 2) / (4.0 ** scale_exp)           # exact division by a power of two
+    ex = Fraction(md) ** 2 / Fraction(4) ** scale_exp
     fl = ex.numerator // ex.denominator
     if abs(md2 - round(md2)) <= 16 * math.ulp(md2):
         return None
@@ -413,11 +513,11 @@ def bbox_of(pts):
 def fallout_points(c):
     """indices of stored points that the float octree of this call loses"""
     if c['fn'] == 'knn':
-        B = c['A']['pts'] if c.get('B') is None else c['B']['pts']
+        B = PB(c)
         bb = bbox_of(B)
         return [('B', i) for i, p in enumerate(B) if octree_descend(p, bb) != 'ok']
     if c['fn'] == 'hd':
-        A, B = c['A']['pts'], c['B']['pts']
+        A, B = PA(c), PB(c)
         bb = bbox_of(A + B)
         return ([('A', i) for i, p in enumerate(A) if octree_descend(p, bb) != 'ok'] +
                 [('B', i) for i, p in enumerate(B) if octree_descend(p, bb) != 'ok'])
@@ -434,8 +534,8 @@ def explained_by_fallout(c, r):
     if not lost or 'exc' in r:
         return False
     if c['fn'] == 'knn':
-        A = c['A']['pts']
-        B = A if c.get('B') is None else c['B']['pts']
+        A = PA(c)
+        B = PB(c)
         lostB = {i for _, i in lost}
         if len(r['idx']) != len(A):
             return False
@@ -444,7 +544,7 @@ def explained_by_fallout(c, r):
                 return False
         return True
     if c['fn'] == 'hd':
-        A, B = c['A']['pts'], c['B']['pts']
+        A, B = PA(c), PB(c)
         la = {i for s_, i in lost if s_ == 'A'}
         lb = {i for s_, i in lost if s_ == 'B'}
         A1 = [p for i, p in enumerate(A) if i not in la]
@@ -667,8 +767,8 @@ def check_knn(ctx, calls, res, with_model=True):
     meta = {}
     for c in calls:
         r = res[c['id']]
-        A = c['A']['pts']
-        B = A if c['B'] is None else c['B']['pts']
+        A = PA(c)
+        B = PB(c)
         k, b2 = c['k'], c['bound2']
         ctx.count('knn:family:' + c['family'])
         ctx.count('knn:query:' + c['qmode'])
@@ -678,6 +778,11 @@ def check_knn(ctx, calls, res, with_model=True):
         if 'exc' in r:
             fails.append((c, None, 'exception: ' + r['exc'], 'impl'))
             continue
+        if c.get('history'):
+            ctx.count('knn:history')
+            if not final_ok(c, r):
+                fails.append((c, None, 'coordinates-after-history', 'harness'))
+                continue
         defs.append(f'Definition B_{c["id"]} : list P := {cPl(B)}.')
         if with_model:
             defs.append(f'Definition T_{c["id"]} : tree := octree 8 B_{c["id"]} B_{c["id"]}.')
@@ -746,8 +851,7 @@ def check_knn(ctx, calls, res, with_model=True):
         titems = []
         for cid, e in model_items:
             c, qi = meta[cid]
-            B = c['A']['pts'] if c['B'] is None else c['B']['pts']
-            titems.append((cid, f'tb {c["k"]}%nat {cD(c["bound2"])} {cP(c["A"]["pts"][qi])} B_{c["id"]} '
+            titems.append((cid, f'tb {c["k"]}%nat {cD(c["bound2"])} {cP(PA(c)[qi])} B_{c["id"]} '
                                 f'{lib.coq_list([lib.coq_Z(i) for i in res[c["id"]]["idx"][qi]])}'))
         tfail, _ = coq_failing(ctx, 'TieKnn', tdefs, titems)
         ctx.notes['knn_tie_break'] = {'rows': len(titems), 'index_lists_equal_to_model': len(titems) - len(tfail),
@@ -763,12 +867,17 @@ def check_hd(ctx, calls, res, with_model=True):
     defs, items, mitems, fails, meta = [], [], [], [], {}
     for c in calls:
         r = res[c['id']]
-        A, B = c['A']['pts'], c['B']['pts']
+        A, B = PA(c), PB(c)
         ctx.count('hd:' + ('directed' if c['directed'] else 'symmetric'))
         ctx.count('hd:family:' + c['family'])
         if 'exc' in r:
             fails.append((c, None, 'exception: ' + r['exc'], 'impl'))
             continue
+        if c.get('history'):
+            ctx.count('hd:history')
+            if not final_ok(c, r):
+                fails.append((c, None, 'coordinates-after-history', 'harness'))
+                continue
         want = hd_oracle(A, B, c['directed'])
         ctx.case(['hd', A, B, c['directed']], nontrivial=len(A) + len(B) >= 3,
                  sample={'fn': 'hd', 'A': A, 'B': B, 'directed': c['directed'], 'impl': r['hd'],
@@ -822,7 +931,8 @@ def check_hop(ctx, calls, res):
         if 'exc' in r:
             fails.append((c, None, 'exception: ' + r['exc'], 'impl'))
             continue
-        r2 = radius_sq(c['r_f'])
+        r2 = radius_sq(c['r_f'], c.get('scale_exp', 0))
+        ctx.count('hop:scale:2^%d' % c.get('scale_exp', 0))
         if r2 is None:
             skipped += 1
             continue
@@ -921,8 +1031,8 @@ def shrink(ctx, c, still_fails, budget=2):
 def knn_fails(c, r):
     if 'exc' in r:
         return False
-    A = c['A']['pts']
-    B = A if c['B'] is None else c['B']['pts']
+    A = PA(c)
+    B = PB(c)
     if len(r['idx']) != len(A):
         return True
     return any(knn_oracle(q, B, c['k'], c['bound2'], r['idx'][i], r['vec'][i]) is not None
@@ -932,7 +1042,7 @@ def knn_fails(c, r):
 def hd_fails(c, r):
     if 'exc' in r:
         return False
-    return not dist_close(r['hd'], hd_oracle(c['A']['pts'], c['B']['pts'], c['directed']))
+    return not dist_close(r['hd'], hd_oracle(PA(c), PB(c), c['directed']))
 
 
 def report(ctx, fails, res, do_shrink=True):
@@ -963,6 +1073,7 @@ def report(ctx, fails, res, do_shrink=True):
         case = strip(c)
         shrunk_from = None
         if do_shrink and src in ('oracle', 'coq') and c['fn'] in ('knn', 'hd') and len(seen) <= 1 \
+                and not c.get('history') \
                 and __import__('time').time() - ctx.t0 < 150:
             small = shrink(ctx, c, knn_fails if c['fn'] == 'knn' else hd_fails)
             if small is not c:
